@@ -327,9 +327,19 @@ pub fn many_cases(out: &mut Out, rng: &mut Rng, g: &G, doc: &[u8], wellformed: b
     let r = fmt(doc, guarded(|| sonic_rs::get_many(doc, &tree)));
     out.count(&format!("{op}:{}", if r.starts_with("ok") { "Ok" } else { "Err" }));
     out.case(op, &[&pa, &h, &r, "get_many"], "ok", set.len() > 1);
+    // the search model itself (Model/ManySeen.rec2 with its counter, early exits and list of walked nodes, over the
+    // tree Model/ManyBuild.build makes of the paths) must return the very slot vector, or fail where the code fails
+    let keys_only = set.iter().all(|p| p.iter().all(|e| matches!(e, PathElem::Key(_))));
+    if wellformed && keys_only {
+        out.count("manyrec");
+        out.case("manyrec", &[&pa, &h, &r, "get_many"], "same", set.len() > 1);
+    }
     if wellformed {
         let r = fmt(doc, guarded(|| unsafe { sonic_rs::get_many_unchecked(doc, &tree) }));
         out.case(op, &[&pa, &h, &r, "get_many_unchecked"], "ok", set.len() > 1);
+        if keys_only {
+            out.case("manyrec", &[&pa, &h, &r, "get_many_unchecked"], "same", set.len() > 1);
+        }
     }
 }
 
